@@ -21,6 +21,7 @@ const STEP: &str = "c12-pages";
 const ITEM_CAP: usize = 100_000; // an enumeration yielding more items than this is reported as non-terminating
 const HANG_MS: u64 = 15_000; // a single case running longer than this is reported as non-terminating
 const DEPTH_LIMIT: usize = 256; // the library's documented PAGE_TREE_DEPTH_LIMIT
+static FALLBACKS: AtomicU64 = AtomicU64::new(0); // via-file cases whose save or load failed (then checked in memory only)
 
 // ---------------------------------------------------------------------------------------------------------
 // a case: a document plus (for well-formed trees) the exact expected enumeration
@@ -104,6 +105,8 @@ pub type Fails = Vec<(String, String, String)>; // (obligation, detail, observed
 fn pmsg(e: Box<dyn std::any::Any + Send>) -> String {
     if let Some(s) = e.downcast_ref::<String>() { s.clone() } else if let Some(s) = e.downcast_ref::<&str>() { s.to_string() } else { "panic".into() }
 }
+/// arithmetic-overflow panics (only present when overflow checks are compiled in) are kept apart from other panics
+fn panic_obl(m: &str) -> String { if m.contains("attempt to") { "no-arith-overflow".into() } else { "no-panic".into() } }
 fn ids_str(v: &[ObjectId]) -> String {
     let mut s: Vec<String> = v.iter().take(40).map(|i| format!("{} {}", i.0, i.1)).collect();
     if v.len() > 40 { s.push(format!("... ({} ids)", v.len())); }
@@ -140,7 +143,7 @@ pub fn check(doc: &Document, expect: Option<&[ObjectId]>) -> Fails {
         (v, capped)
     }));
     let seq = match r {
-        Err(e) => { f.push(("no-panic".into(), format!("page_iter panicked: {}", pmsg(e)), "panic".into())); None }
+        Err(e) => { let m = pmsg(e); f.push((panic_obl(&m), format!("page_iter panicked: {}", m), "panic".into())); None }
         Ok((v, true)) => { f.push(("terminates".into(), format!("page_iter yielded more than {} items", ITEM_CAP), ids_str(&v))); None }
         Ok((v, false)) => Some(v),
     };
@@ -152,7 +155,7 @@ pub fn check(doc: &Document, expect: Option<&[ObjectId]>) -> Fails {
     }
     // 2. get_pages: numbered 1..n
     match catch_unwind(AssertUnwindSafe(|| doc.get_pages())) {
-        Err(e) => f.push(("no-panic".into(), format!("get_pages panicked: {}", pmsg(e)), "panic".into())),
+        Err(e) => { let m = pmsg(e); f.push((panic_obl(&m), format!("get_pages panicked: {}", m), "panic".into())) }
         Ok(m) => {
             let keys: Vec<u32> = m.keys().cloned().collect();
             let vals: Vec<ObjectId> = m.values().cloned().collect();
@@ -169,7 +172,7 @@ pub fn check(doc: &Document, expect: Option<&[ObjectId]>) -> Fails {
     }
     // 3. the iterator consumed by collect() (uses size_hint, which reads /Count)
     match catch_unwind(AssertUnwindSafe(|| doc.page_iter().collect::<Vec<ObjectId>>())) {
-        Err(e) => f.push(("no-panic".into(), format!("page_iter().collect::<Vec<_>>() panicked: {}", pmsg(e)), "panic".into())),
+        Err(e) => { let m = pmsg(e); f.push((panic_obl(&m), format!("page_iter().collect::<Vec<_>>() panicked: {}", m), "panic".into())) }
         Ok(v) => match expect {
             Some(w) => { if v.as_slice() != w { f.push(("page-order".into(), order_detail("page_iter().collect()", &v, w), ids_str(&v))); } }
             None => only_pages("page_iter().collect()", &v, &mut f),
@@ -326,7 +329,7 @@ fn wf_case(s: &str, layout: usize, mode: usize, via_file: bool) -> Case {
         let loaded = catch_unwind(AssertUnwindSafe(|| { doc.save_to(&mut bytes).ok()?; Document::load_mem(&bytes).ok() }));
         match loaded {
             Ok(Some(l)) => doc = l,
-            _ => desc.push_str(" (save/load failed: checked in memory)"),
+            _ => { FALLBACKS.fetch_add(1, Ordering::SeqCst); desc.push_str(" (save/load failed: checked in memory)") }
         }
     }
     Case { desc, doc, expect: Some(expect), child: false }
@@ -553,3 +556,251 @@ fn big_counts_case(s: &str, big: usize, target: usize) -> Case {
 }
 
 // RUNNER_BELOW
+
+// ---------------------------------------------------------------------------------------------------------
+// families
+// ---------------------------------------------------------------------------------------------------------
+pub struct Fam { name: &'static str, count: u64, make: Box<dyn Fn(u64) -> Case + Sync + Send> }
+
+struct Bounds { wf_n: usize, file_n: usize, deep: Vec<usize>, fan: Vec<usize>, graphs: Vec<GraphFam>, kinds_triples_all_roots: bool, counts_n: usize, big_trees: Vec<&'static str> }
+fn bounds(thorough: bool) -> Bounds {
+    if thorough {
+        Bounds { wf_n: 9, file_n: 6, deep: (0..=300).chain([1000]).collect(), fan: (0..=40).chain([64, 255, 256, 257, 1000]).collect(),
+                 graphs: vec![GraphFam { slots: 2, root_len: 3, node_len: 3 }, GraphFam { slots: 3, root_len: 2, node_len: 2 }], kinds_triples_all_roots: true, counts_n: 5,
+                 big_trees: vec!["p", "(p)", "p(p)", "(p)p", "p(p)(p)", "pp((p)p)", "()p"] }
+    } else {
+        Bounds { wf_n: 7, file_n: 5, deep: (0..=12).chain([31, 32, 33, 34, 64, 128]).chain(253..=259).chain([300]).collect(), fan: (0..=12).chain([31, 32, 33, 64, 256, 1000]).collect(),
+                 graphs: vec![GraphFam { slots: 2, root_len: 3, node_len: 2 }], kinds_triples_all_roots: false, counts_n: 4,
+                 big_trees: vec!["(p)", "p(p)", "p(p)(p)"] }
+    }
+}
+
+fn families(thorough: bool) -> Vec<Fam> {
+    let b = bounds(thorough);
+    let mut out: Vec<Fam> = vec![];
+    let fo = forests(b.wf_n);
+    // 1. all well-formed trees
+    let all: Arc<Vec<String>> = Arc::new(fo.iter().flatten().cloned().collect());
+    let per = (LAYOUTS * KIDMODES) as u64;
+    { let all = all.clone(); out.push(Fam { name: "well-formed", count: all.len() as u64 * per, make: Box::new(move |i| { let v = (i % per) as usize; wf_case(&all[(i / per) as usize], v / KIDMODES, v % KIDMODES, false) }) }); }
+    // 2. the same through a saved and re-loaded file
+    let small: Arc<Vec<String>> = Arc::new(fo.iter().take(b.file_n + 1).flatten().cloned().collect());
+    { let small = small.clone(); out.push(Fam { name: "well-formed-via-file", count: small.len() as u64 * 8, make: Box::new(move |i| { let v = (i % 8) as usize; wf_case(&small[(i / 8) as usize], v / 4, v % 4, true) }) }); }
+    // 3. deep
+    let mut deep: Vec<(usize, usize, usize, usize)> = vec![];
+    for &dep in &b.deep { for sh in 0..DEEP_SHAPES { for (l, m) in [(0, 0), (1, 1), (2, 2), (3, 3)] { deep.push((sh, dep, l, m)); } } }
+    out.push(Fam { name: "deep", count: deep.len() as u64, make: Box::new(move |i| { let (s, dd, l, m) = deep[i as usize]; deep_case(s, dd, l, m) }) });
+    // 4. wide
+    let mut fan: Vec<(usize, usize, usize, usize)> = vec![];
+    for &k in &b.fan { for p in 0..FAN_PATTERNS { for (l, m) in [(0, 0), (1, 1), (2, 2), (3, 3)] { fan.push((p, k, l, m)); } } }
+    out.push(Fam { name: "wide", count: fan.len() as u64, make: Box::new(move |i| { let (p, k, l, m) = fan[i as usize]; fan_case(p, k, l, m) }) });
+    // 5. reference graphs
+    for g in b.graphs.clone() { out.push(Fam { name: "reference-graph", count: g.count(), make: Box::new(move |i| g.case(i)) }); }
+    // 6. unusual nodes
+    let kk = KINDS as u64;
+    if b.kinds_triples_all_roots {
+        out.push(Fam { name: "unusual-nodes-triples", count: kk * kk * kk * ROOTS as u64, make: Box::new(move |i| { let r = (i % ROOTS as u64) as usize; let j = i / ROOTS as u64; kinds_case(r, &[(j / (kk * kk)) as usize, ((j / kk) % kk) as usize, (j % kk) as usize]) }) });
+    } else {
+        out.push(Fam { name: "unusual-nodes-triples", count: kk * kk * kk, make: Box::new(move |j| kinds_case(0, &[(j / (kk * kk)) as usize, ((j / kk) % kk) as usize, (j % kk) as usize])) });
+    }
+    out.push(Fam { name: "unusual-nodes-pairs", count: kk * kk * ROOTS as u64, make: Box::new(move |i| { let r = (i % ROOTS as u64) as usize; let j = i / ROOTS as u64; kinds_case(r, &[(j / kk) as usize, (j % kk) as usize]) }) });
+    out.push(Fam { name: "unusual-nodes-single", count: (kk + 1) * ROOTS as u64, make: Box::new(move |i| { let r = (i % ROOTS as u64) as usize; let j = i / ROOTS as u64; if j == kk { kinds_case(r, &[]) } else { kinds_case(r, &[j as usize]) } }) });
+    // 7. wrong counts
+    let mut cs: Vec<(String, usize, usize, usize)> = vec![];
+    for s in fo.iter().take(b.counts_n + 1).flatten() {
+        let inter = 1 + s.bytes().filter(|&c| c == b'(').count();
+        for v in 0..SMALL_COUNTS { for t in 0..=inter { for m in [0, 1] { cs.push((s.clone(), v, t, m)); } } }
+    }
+    out.push(Fam { name: "wrong-counts", count: cs.len() as u64, make: Box::new(move |i| { let (s, v, t, m) = &cs[i as usize]; counts_case(s, *v, *t, *m) }) });
+    // 8. huge counts (child processes)
+    let mut bc: Vec<(&'static str, usize, usize)> = vec![];
+    for s in &b.big_trees {
+        let inter = 1 + s.bytes().filter(|&c| c == b'(').count();
+        for v in 0..BIG_COUNTS.len() { for t in 0..=inter { bc.push((s, v, t)); } }
+    }
+    out.push(Fam { name: "huge-counts", count: bc.len() as u64, make: Box::new(move |i| { let (s, v, t) = bc[i as usize]; big_counts_case(s, v, t) }) });
+    out
+}
+
+fn bound_string(thorough: bool) -> String {
+    let b = bounds(thorough);
+    let g: Vec<String> = b.graphs.iter().map(|g| format!("{} slots, root Kids list of length <= {}, slot Kids lists of length <= {}", g.slots, g.root_len, g.node_len)).collect();
+    format!("page trees as documents built in memory (catalog -> root -> Kids), APIs page_iter (pulled by hand and via collect) and get_pages. \
+(1) ALL well-formed trees with <= {} nodes below the root (node = page leaf or intermediate node with >= 0 kids, incl. empty intermediate nodes, pages and intermediates interleaved; with Parent and correct Count) x 4 id layouts (preorder; descending; sparse with generations 0/1/65535; colliding numbers differing only in generation) x 4 ways of holding Kids (direct; behind a reference; alternating; behind two references): exact order demanded; \
+(2) the trees with <= {} nodes x 2 id layouts x 4 Kids modes after save_to + load_mem: exact order; \
+(3) deep trees: 6 chain shapes (single kid; sibling page after / before / both; empty sibling after / before) x depths {} of intermediate levels below the root x 4 layout/Kids combinations: exact order up to depth 256 = PAGE_TREE_DEPTH_LIMIT, weak obligations beyond; \
+(4) wide trees: 6 patterns x fan-out {} x 4 layout/Kids combinations: exact order; \
+(5) malformed reference graphs: catalog 1, root 2, k slots each a page or an intermediate node, every Kids list over {{catalog, root, every slot, an absent object}} (cycles, self loops, shared nodes, dangling kids): all graphs with [{}]; \
+(6) unusual nodes: root Kids = every {} of {} kid kinds (ill-typed/missing Type, Kids missing/ill-typed/dangling, non-dictionary objects, streams, alias objects and alias loops, inline entries, back references, wrong generation, 200-long alias chain) under {} root/catalog variants, plus every pair and single under all 13 root/catalog variants; \
+(7) wrong Count: all trees with <= {} nodes x 11 Count variants (absent, 0, -1, off by one, 1000, real, name, behind a reference, dangling reference, i64::MIN) on each single intermediate node and on all x 2 Kids modes; \
+(8) huge Count (2^31, 10^10, 5*10^17, i64::MAX, i64::MAX behind a reference) on {} small trees, each in a child process. \
+Malformed families (5)-(8) and beyond-limit depths: terminates (item cap {} and {} s watchdog), yields only page objects that occur in a Kids array under the root, numbers 1..n, no panic, no abort.",
+        b.wf_n, b.file_n, if thorough { "0..=300 and 1000".to_string() } else { format!("{:?}", b.deep) }, if thorough { "0..=40, 64, 255, 256, 257, 1000".to_string() } else { format!("{:?}", b.fan) },
+        g.join("; "), if b.kinds_triples_all_roots { "triple" } else { "triple" }, KINDS, if b.kinds_triples_all_roots { "all 13" } else { "the normal" }, b.counts_n, b.big_trees.len(), ITEM_CAP, HANG_MS / 1000)
+}
+
+// ---------------------------------------------------------------------------------------------------------
+// child process for cases that may abort the process
+// ---------------------------------------------------------------------------------------------------------
+fn fails_json(f: &Fails) -> Value { json!(f.iter().map(|(a, b, c)| json!([a, b, c])).collect::<Vec<_>>()) }
+fn child_main(arg: &str) -> ! {
+    std::panic::set_hook(Box::new(|_| {}));
+    let v: Value = serde_json::from_str(arg).unwrap_or(Value::Null);
+    let c = case_from_json(&v);
+    let f = check(&c.doc, c.expect.as_deref());
+    println!("{}", json!({"c12child": fails_json(&f)}));
+    std::process::exit(0);
+}
+fn run_child(input: &Value) -> Fails {
+    let exe = match std::env::current_exe() { Ok(e) => e, Err(e) => return vec![("child-spawn".into(), e.to_string(), String::new())] };
+    let mut ch = match std::process::Command::new(exe).arg(STEP).arg("--c12-child").arg(input.to_string()).env("RUST_BACKTRACE", "0")
+        .stdin(std::process::Stdio::null()).stdout(std::process::Stdio::piped()).stderr(std::process::Stdio::piped()).spawn() {
+        Ok(c) => c, Err(e) => return vec![("child-spawn".into(), e.to_string(), String::new())] };
+    let t0 = Instant::now();
+    loop {
+        match ch.try_wait() {
+            Ok(Some(_)) => break,
+            Ok(None) => {
+                if t0.elapsed() > Duration::from_millis(2 * HANG_MS) { let _ = ch.kill(); let _ = ch.wait(); return vec![("terminates".into(), format!("no result within {} s (child process killed)", 2 * HANG_MS / 1000), "timeout".into())]; }
+                std::thread::sleep(Duration::from_millis(2));
+            }
+            Err(e) => return vec![("child-spawn".into(), e.to_string(), String::new())],
+        }
+    }
+    let out = match ch.wait_with_output() { Ok(o) => o, Err(e) => return vec![("child-spawn".into(), e.to_string(), String::new())] };
+    let so = String::from_utf8_lossy(&out.stdout).to_string();
+    let se = String::from_utf8_lossy(&out.stderr).to_string();
+    if let Some(line) = so.lines().find(|l| l.contains("c12child")) {
+        if let Ok(v) = serde_json::from_str::<Value>(line) {
+            return v["c12child"].as_array().cloned().unwrap_or_default().iter().map(|e| (e[0].as_str().unwrap_or("").to_string(), e[1].as_str().unwrap_or("").to_string(), e[2].as_str().unwrap_or("").to_string())).collect();
+        }
+    }
+    let tail: String = se.lines().filter(|l| !l.trim().is_empty()).take(2).collect::<Vec<_>>().join(" | ");
+    vec![("no-abort".into(), format!("enumerating the pages killed the process ({}): {}", out.status, tail), format!("{}", out.status))]
+}
+
+// ---------------------------------------------------------------------------------------------------------
+// runner with a watchdog for hangs
+// ---------------------------------------------------------------------------------------------------------
+#[derive(Default)]
+struct Acc { evals: u64, nontrivial: u64, fails: Vec<(u64, Failure)>, samples: Vec<String> }
+impl Acc {
+    fn add_fail(&mut self, idx: u64, f: Failure) {
+        self.fails.push((idx, f));
+    }
+    fn trim(&mut self) {
+        self.fails.sort_by_key(|x| x.0);
+        let mut kept: Vec<(u64, Failure)> = vec![];
+        for (i, f) in self.fails.drain(..) { if kept.iter().filter(|k| k.1.obligation == f.obligation).count() < 3 { kept.push((i, f)); } }
+        self.fails = kept;
+    }
+    fn merge(mut self, o: Acc) -> Acc {
+        self.evals += o.evals;
+        self.nontrivial += o.nontrivial;
+        self.fails.extend(o.fails);
+        self.trim();
+        for s in o.samples { if self.samples.len() < 2 { self.samples.push(s); } }
+        self
+    }
+}
+
+fn eval_case(c: &Case) -> (Fails, bool) {
+    let nontrivial = match &c.expect { Some(e) => !e.is_empty(), None => !reachable(&c.doc).is_empty() };
+    if c.child { (run_child(&case_json(c)), nontrivial) } else { (check(&c.doc, c.expect.as_deref()), nontrivial) }
+}
+
+struct Watch { slots: Vec<(AtomicU64, AtomicU64)>, t0: Instant, evals: AtomicU64, done: AtomicU64 }
+
+pub fn run(thorough: bool) -> Report {
+    let args: Vec<String> = std::env::args().collect();
+    if let Some(j) = arg_val(&args, "--c12-child") { child_main(&j); }
+    let bound = bound_string(thorough);
+    let mut rep = Report::new(&bound, true);
+    rep.obligations = 7; // page-order, page-numbering, only-pages, terminates, no-panic, no-arith-overflow, no-abort
+    let fams = Arc::new(families(thorough));
+    let prev_hook = std::panic::take_hook();
+    std::panic::set_hook(Box::new(|_| {}));
+    let nthreads = rayon::current_num_threads();
+    let watch = Arc::new(Watch { slots: (0..nthreads + 1).map(|_| (AtomicU64::new(0), AtomicU64::new(0))).collect(), t0: Instant::now(), evals: AtomicU64::new(0), done: AtomicU64::new(0) });
+    // watchdog: a case that runs longer than HANG_MS is a termination failure; the hung thread cannot be stopped, so report and exit
+    {
+        let (watch, fams, bound) = (watch.clone(), fams.clone(), bound.clone());
+        std::thread::spawn(move || loop {
+            std::thread::sleep(Duration::from_millis(250));
+            if watch.done.load(Ordering::SeqCst) != 0 { return; }
+            let now = watch.t0.elapsed().as_millis() as u64;
+            for s in &watch.slots {
+                let code = s.0.load(Ordering::SeqCst);
+                let st = s.1.load(Ordering::SeqCst);
+                if code != 0 && now > st + HANG_MS && s.0.load(Ordering::SeqCst) == code {
+                    let (fi, idx) = (((code >> 48) - 1) as usize, code & ((1 << 48) - 1));
+                    let c = (fams[fi].make)(idx);
+                    let mut r = Report::new(&bound, false);
+                    r.obligations = 7;
+                    r.evaluations = watch.evals.load(Ordering::SeqCst);
+                    r.nontrivial = r.evaluations;
+                    r.fail("terminates", format!("enumeration did not finish within {} s; family {} case {} ({}); the run was cut short here", HANG_MS / 1000, fams[fi].name, idx, c.desc), case_json(&c), "hang".into());
+                    println!("{}", r.to_json(STEP));
+                    std::process::exit(0);
+                }
+            }
+        });
+    }
+    for (fi, fam) in fams.iter().enumerate() {
+        let w = watch.clone();
+        let one = |mut acc: Acc, i: u64| -> Acc {
+            let slot = &w.slots[rayon::current_thread_index().unwrap_or(nthreads).min(nthreads)];
+            let c = (fam.make)(i);
+            if !c.child {
+                slot.1.store(w.t0.elapsed().as_millis() as u64, Ordering::SeqCst);
+                slot.0.store(((fi as u64 + 1) << 48) | i, Ordering::SeqCst);
+            }
+            let (fails, nt) = eval_case(&c);
+            slot.0.store(0, Ordering::SeqCst);
+            w.evals.fetch_add(1, Ordering::Relaxed);
+            acc.evals += 1;
+            if nt { acc.nontrivial += 1; }
+            if i == fam.count / 2 && acc.samples.len() < 2 { acc.samples.push(format!("{}: {}", fam.name, c.desc)); }
+            if !fails.is_empty() {
+                let input = case_json(&c);
+                let mut seen: Vec<String> = vec![];
+                for (ob, detail, observed) in fails {
+                    if seen.contains(&ob) { continue; }
+                    seen.push(ob.clone());
+                    acc.add_fail(i, Failure { obligation: ob, detail: format!("{} [family {} case {}: {}]", detail, fam.name, i, c.desc), input: input.clone(), observed });
+                }
+                if acc.fails.len() > 64 { acc.trim(); }
+            }
+            acc
+        };
+        let acc = (0..fam.count).into_par_iter().fold(Acc::default, one).reduce(Acc::default, Acc::merge);
+        rep.evaluations += acc.evals;
+        rep.nontrivial += acc.nontrivial;
+        for (_, f) in acc.fails { rep.fail(&f.obligation.clone(), f.detail, f.input, f.observed); }
+        for s in acc.samples.into_iter().take(1) { if fi % 2 == 0 { rep.sample(s); } }
+    }
+    watch.done.store(1, Ordering::SeqCst);
+    std::panic::set_hook(prev_hook);
+    rep.samples.truncate(8);
+    let fb = FALLBACKS.load(Ordering::SeqCst);
+    if fb > 0 { rep.exhaustive = false; rep.samples.insert(0, format!("NOTE: {} via-file cases could not be saved/loaded and were checked in memory only", fb)); }
+    rep
+}
+
+pub fn replay(v: &Value) -> Result<(), String> {
+    let c = case_from_json(v);
+    let fails = if c.child {
+        run_child(v)
+    } else {
+        let (tx, rx) = std::sync::mpsc::channel();
+        std::thread::spawn(move || {
+            let prev = std::panic::take_hook();
+            std::panic::set_hook(Box::new(|_| {}));
+            let f = check(&c.doc, c.expect.as_deref());
+            std::panic::set_hook(prev);
+            let _ = tx.send(f);
+        });
+        match rx.recv_timeout(Duration::from_millis(HANG_MS)) { Ok(f) => f, Err(_) => vec![("terminates".into(), format!("no result within {} s", HANG_MS / 1000), "hang".into())] }
+    };
+    if fails.is_empty() { Ok(()) } else { Err(fails.iter().map(|(a, b, _)| format!("{}: {}", a, b)).collect::<Vec<_>>().join("; ")) }
+}
